@@ -1,3 +1,161 @@
-import OptreeModel.Model.Eval
+/-
+  C08  Treespec inspection, constructors, transform and compose are consistent.
+-/
+import OptreeModel.Model.Serial
+
 namespace Optree
+
+/-- **Python index semantics** of `child(i)` / `entry(i)`: valid exactly on `[-n, n)`, negative
+indices count from the end -/
+theorem C08_normIndex_none (i : Int) (n : Nat) :
+    normIndex i n = Option.none ↔ (i < -(n : Int) ∨ i ≥ (n : Int)) := by
+  unfold normIndex
+  split
+  · rename_i h; simp only [Bool.or_eq_true, decide_eq_true_eq] at h; simp [h]
+  · rename_i h
+    simp only [Bool.or_eq_true, decide_eq_true_eq, not_or, Int.not_lt, ge_iff_le] at h
+    split <;> simp <;> omega
+
+theorem C08_normIndex_some (i : Int) (n k : Nat) (h : normIndex i n = some k) :
+    k < n ∧ ((0 ≤ i ∧ (k : Int) = i) ∨ (i < 0 ∧ (k : Int) = i + n)) := by
+  unfold normIndex at h
+  split at h
+  · simp at h
+  · rename_i hr
+    simp only [Bool.or_eq_true, decide_eq_true_eq, not_or, Int.not_lt, ge_iff_le] at hr
+    split at h
+    · simp at h; subst h; omega
+    · simp at h; subst h; omega
+
+/-- `child(i)` and `entry(i)` raise `IndexError` exactly outside `[-n, n)` (on a sane treespec) -/
+theorem C08_child_index_error (sp : Spec) (i : Int) (hs : sp.sane = true) (root : Node)
+    (hr : sp.nodes.getLast? = some root) (hi : i < -(root.arity : Int) ∨ i ≥ (root.arity : Int)) :
+    child sp i = .error .index ∧ entry sp i = .error .index := by
+  have := (C08_normIndex_none i root.arity).mpr hi
+  simp [child, entry, hs, hr, this]
+
+/-- `entries()` and `entry(i)` agree (non-negative and negative indices) -/
+theorem C08_entry_of_entries (sp : Spec) (i : Int) (e : Key) (es : List Key)
+    (hes : entries sp = .ok es) (he : entry sp i = .ok e) :
+    ∃ k, normIndex i sp.numChildren = some k ∧ es[k]? = some e := by
+  unfold entries at hes
+  unfold entry at he
+  split at hes; · simp at hes
+  rename_i hs
+  simp only [hs, Bool.false_eq_true, if_false] at he
+  split at hes; · simp at hes
+  rename_i root hroot
+  simp only [hroot] at he
+  split at he; · simp at he
+  rename_i k hk
+  refine ⟨k, by simpa [Spec.numChildren, hroot] using hk, ?_⟩
+  have hk' := (C08_normIndex_some i root.arity k hk).1
+  split at hes
+  · rename_i es' hes'
+    simp only [hes'] at he
+    simp at hes; subst hes
+    split at he
+    · rename_i e' he'; simp at he; subst he; exact he'
+    · simp at he
+  · rename_i hnone
+    simp only [hnone] at he
+    simp at hes; subst hes
+    unfold Node.defaultEntries
+    split at he
+    · simp at he
+    · simp at he
+    · split at he
+      · rename_i e' he'; simp at he; subst he; simpa using he'
+      · simp at he
+    · split at he
+      · rename_i e' he'; simp at he; subst he; simpa using he'
+      · simp at he
+    · split at he
+      · rename_i e' he'; simp at he; subst he; simpa using he'
+      · simp at he
+    · simp at he; subst he
+      simp [intEntries, hk']
+
+/-- `one_level()` is a one-level treespec with the same root kind, arity and entries -/
+theorem C08_one_level (sp : Spec) (ol : Spec) (h : oneLevel sp = .ok ol) (hk : sp.kind ≠ .leaf) :
+    ol.isOneLevel = true ∧ ol.kind = sp.kind ∧ ol.numChildren = sp.numChildren ∧ ol.sane = true := by
+  unfold oneLevel at h
+  split at h; · simp at h
+  split at h; · simp at h
+  rename_i root hroot
+  simp at h; subst h
+  have hkind : root.kind ≠ .leaf := by simpa [Spec.kind, hroot] using hk
+  have hb : (root.kind == Kind.leaf) = false := by simpa using hkind
+  simp [oneLevelOf, Spec.isOneLevel, Spec.numNodes, Spec.numChildren, Spec.numLeaves, Spec.kind,
+    Spec.sane, hroot, hb]
+
+/-- **compose**: leaf and node counts multiply as documented; `none_is_leaf` is kept, the inner
+namespace wins when present -/
+theorem C08_compose_counts (a b c : Spec) (h : compose a b = .ok c) :
+    c.numLeaves = a.numLeaves * b.numLeaves ∧
+    c.numNodes = (a.numNodes - a.numLeaves) + a.numLeaves * b.numNodes ∧
+    c.noneIsLeaf = a.noneIsLeaf ∧ c.ns = mergeNs a.ns b.ns ∧ c.sane = true := by
+  unfold compose at h
+  split at h; · simp at h
+  split at h; · simp at h
+  split at h; · simp at h
+  simp only at h
+  generalize (a.nodes.flatMap _) = nodes at h
+  generalize a.numLeaves * b.numLeaves = L at h ⊢
+  generalize (a.numNodes - a.numLeaves) + a.numLeaves * b.numNodes = N at h ⊢
+  split at h; · simp at h
+  rename_i root hroot
+  split at h; · simp at h
+  split at h; · simp at h
+  split at h; · simp at h
+  rename_i h1 h2 h3
+  simp only [bne_iff_ne, ne_eq, Decidable.not_not] at h1 h2
+  simp only [Bool.not_eq_true, Bool.not_eq_false'] at h3
+  cases h
+  have hsane := h3
+  simp only [Spec.sane, hroot, beq_iff_eq] at hsane
+  refine ⟨?_, ?_, rfl, rfl, h3⟩
+  · simp only [Spec.numLeaves, hroot, Option.map_some, Option.getD_some]
+    exact h1
+  · simp only [Spec.numNodes]
+    rw [← hsane, h2]
+
+/-- mismatching `none_is_leaf` or conflicting namespaces are rejected with `ValueError` -/
+theorem C08_compose_rejects (a b : Spec) (hs : a.sane = true ∧ b.sane = true)
+    (h : a.noneIsLeaf ≠ b.noneIsLeaf ∨ nsCompatible a.ns b.ns = false) :
+    compose a b = .error .value := by
+  unfold compose
+  simp only [hs.1, hs.2, Bool.not_true, Bool.or_self, Bool.false_eq_true, if_false]
+  rcases h with h | h
+  · simp [h]
+  · by_cases hn : a.noneIsLeaf = b.noneIsLeaf <;> simp [hn, h]
+
+/-- `transform` with no functions is the identity -/
+theorem C08_transform_none (sp : Spec) (hs : sp.sane = true) :
+    transform sp Option.none Option.none = .ok sp := by
+  simp [transform, hs]
+
+/-- the constructors for a leaf and for `None` -/
+theorem C08_make_leaf_none (nil : Bool) :
+    (makeLeaf nil).isLeaf = true ∧ (makeLeaf nil).sane = true ∧
+    (makeNone nil).numNodes = 1 ∧ (makeNone nil).numLeaves = (if nil then 1 else 0) ∧
+    (makeNone nil).sane = true := by
+  cases nil <;> decide
+
+/-- **repr**: a leaf renders as `*`, `None` as `None`, and the `NoneIsLeaf` / `namespace=` suffixes
+appear exactly when set -/
+theorem C08_repr_affixes (names : Names) (sp : Spec) (r : String) (h : toString names sp = .ok r) :
+    ∃ body, toStringGo names sp.nodes [] = .ok body ∧
+      r = "PyTreeSpec(" ++ body ++ (if sp.noneIsLeaf then ", NoneIsLeaf" else "") ++
+          (if sp.ns != "" then ", namespace='" ++ sp.ns ++ "'" else "") ++ ")" := by
+  unfold toString at h
+  split at h; · simp at h
+  split at h; · simp at h
+  rename_i body hb
+  simp only [Except.ok.injEq] at h
+  exact ⟨body, hb, h.symm⟩
+
+example : (match toString stdNames (makeLeaf true) with | .ok s => s == "PyTreeSpec(*, NoneIsLeaf)" | _ => false) = true := by decide
+example : (match toString stdNames (makeNone false) with | .ok s => s == "PyTreeSpec(None)" | _ => false) = true := by decide
+
 end Optree
